@@ -16,6 +16,8 @@ pub struct TrapCase {
     /// does the trap consume one keyboard byte into R0
     pub reads_input: bool,
     pub nontrivial: bool,
+    /// GETC/IN only: the keyboard is empty when the trap starts; the bytes arrive after this many instructions
+    pub late: Option<u64>,
     pub desc: Value,
 }
 
@@ -83,13 +85,18 @@ pub fn decode(tape: &[u32]) -> TrapCase {
     if vect == 0x20 || vect == 0x21 {
         nontrivial = true;
     }
-    let desc = json!({"trap": format!("x{vect:02X}"), "real_traps": spec.real_traps, "regs": spec.regs.iter().map(|r| format!("x{r:04X}")).collect::<Vec<_>>(), "psr": format!("x{:04X}", spec.psr), "keyboard": kbd, "string": strdesc});
-    TrapCase { vect, spec, expect_out, reads_input, nontrivial, desc }
+    let late = (reads_input && t.chance(1, 3)).then(|| 1 + t.pick(400) as u64);
+    let desc = json!({"trap": format!("x{vect:02X}"), "keys_arrive_after_instructions": late, "real_traps": spec.real_traps, "regs": spec.regs.iter().map(|r| format!("x{r:04X}")).collect::<Vec<_>>(), "psr": format!("x{:04X}", spec.psr), "keyboard": kbd, "string": strdesc});
+    TrapCase { vect, spec, expect_out, reads_input, nontrivial, late, desc }
 }
 
 pub fn check(tape: &[u32], st: &mut Stats) -> Result<(), String> {
     let c = decode(tape);
-    let mut rig = build_rig(&c.spec);
+    let mut spec = c.spec.clone();
+    if c.late.is_some() {
+        spec.kbd = Some(vec![]);
+    }
+    let mut rig = build_rig(&spec);
     let user_before: Vec<u16> = (USER_START..IO_START).map(|a| rig.sim.mem[a].get()).collect();
     let kbd_before: Vec<u8> = c.spec.kbd.clone().unwrap();
     let name = match c.vect {
@@ -117,6 +124,18 @@ pub fn check(tape: &[u32], st: &mut Stats) -> Result<(), String> {
         return Ok(());
     }
     rig.sim.breakpoints.insert(Breakpoint::PC(0x3001));
+    if let Some(n) = c.late {
+        // nothing typed yet: the routine has to wait
+        let r = rig.sim.run_with_limit(n);
+        if let Err(e) = r {
+            return Err(format!("{name} with an empty keyboard: run returned {e:?}"));
+        }
+        if rig.sim.pc == 0x3001 || rig.sim.hit_breakpoint() {
+            return Err(format!("{name}: returned to the caller after {n} instructions although no key had been typed (R0 = x{:04X})", rig.sim.reg_file[reg(0)].get()));
+        }
+        rig.kbd.as_ref().unwrap().write().unwrap().extend(c.spec.kbd.clone().unwrap());
+        st.class(&format!("{name}:keys-arrive-while-waiting"));
+    }
     let r = rig.sim.run_with_limit(20_000);
     if let Err(e) = r {
         return Err(format!("{name}: run returned {e:?}"));
@@ -175,13 +194,13 @@ pub fn describe(tape: &[u32]) -> Value {
 pub fn run(ctx: &Ctx) -> Outcome {
     let mut out = Outcome::new(
         "one trap per case invoked from user code (TRAP xNN; HALT) with random R0-R7, condition codes, keyboard queue (bytes 0-255) and, for PUTS/PUTSP, strings of 0-60 bytes x01-xFF at random user addresses (incl. ending at xFDFF; packed strings of odd and even length), real and virtual traps; \
-         contract model: exact display bytes, exactly one byte consumed by GETC/IN (R0 = that byte), every other register, the PSR and all user memory unchanged, PC at the instruction after the TRAP; HALT stops the machine; \
+         contract model: exact display bytes, exactly one byte consumed by GETC/IN (R0 = that byte; in a third of these cases the keyboard is empty at first - the routine must still be waiting after 1-400 instructions - and the bytes are typed then), every other register, the PSR and all user memory unchanged, PC at the instruction after the TRAP; HALT stops the machine; \
          non-trivial = string of >=2 bytes / with non-printable bytes / odd packed length, or an I/O character trap; distinct by case description",
     );
     let cfg = TapeCfg::new(ctx, 3000, 150_000, 200);
     out.shards = cfg.shards;
     out.absorb(tape_search(ctx, "main", &cfg, check, describe));
-    out.essential = ["GETC:real", "GETC:virtual", "OUT:real", "PUTS:virtual", "PUTS:real", "IN:virtual", "IN:real", "PUTSP:real", "PUTSP:virtual", "HALT:real", "HALT:virtual", "PUTSP-odd-length", "empty-string"].iter().map(|s| s.to_string()).collect();
+    out.essential = ["GETC:real", "GETC:virtual", "OUT:real", "PUTS:virtual", "PUTS:real", "IN:virtual", "IN:real", "PUTSP:real", "PUTSP:virtual", "HALT:real", "HALT:virtual", "PUTSP-odd-length", "empty-string", "GETC:keys-arrive-while-waiting", "IN:keys-arrive-while-waiting"].iter().map(|s| s.to_string()).collect();
     out
 }
 
